@@ -14,7 +14,8 @@ PID = "C13"
 RULE = (
     "case = (mode, recurrence spec as in C12, probe points): probes lie "
     "before, on, between and after members; members are re-spelled in other "
-    "UTC offsets / representations / 24:00 form; the last member of a bounded "
+    "UTC offsets / representations / 24:00 form / decimal hour or minute "
+    "spellings (dyadic fractions); the last member of a bounded "
     "series is always probed; one case in six also passes the constructor's "
     "max_point (min_point for a series that runs backwards) at or between "
     "members, which bounds the series like an end point. Oracle = the library's own iteration "
@@ -66,6 +67,16 @@ def check_case(case):
                 classes.append("limit/" + ("min_point" if descending else
                                            "max_point"))
             r = RC.build(spec, extra)
+            if extra:
+                # an anchor outside its own limit is a degenerate configuration
+                # the statement says nothing about (for bounded month/year
+                # series the library's derived anchor can differ from the
+                # reference series the limit was drawn from, see F1)
+                anchor = r.end_point if descending else r.start_point
+                ia = M.Native(cm, anchor, allow24=True).instant
+                il = M.kw_instant(cm, case["limit"])
+                if (il > ia) if descending else (il < ia):
+                    return Outcome(skip=True, classes=["limit/before_anchor"])
             members = list(itertools.islice(iter(r), KM + 1))
             complete = len(members) <= KM       # whole (bounded) series seen
             members = members[:KM]
@@ -149,8 +160,13 @@ def check_case(case):
                     classes.append("probe/between")
                 elif lo is not None:
                     classes.append("probe/outside")
-                if inst_is_fractional(pk):
+                fractional = ip.denominator != 1
+                spelled_decimal = any(k.endswith("_decimal") for k in pk)
+                if fractional:
                     classes.append("probe/fractional_second")
+                elif spelled_decimal:
+                    classes.append("probe/decimal_spelling")
+                    nontrivial = nontrivial or is_member
                 got = r.get_is_valid(p)
                 if bool(got) != is_member:
                     fail = "get_is_valid: %s .get_is_valid(%s) = %r but " \
@@ -158,7 +174,11 @@ def check_case(case):
                                text, M.fmt_kw(pk), got,
                                "yields" if is_member else "never yields")
                     break
-                if has_start and not descending and not inst_is_fractional(pk):
+                # (a decimal-minute probe + an interval in seconds is float
+                # arithmetic inside the library: 59.00000000000006 s; the
+                # clause is stated for whole-second probes)
+                if has_start and not descending and not fractional and \
+                        not spelled_decimal:
                     later = [j for j, x in enumerate(mi) if x > ip]
                     got = r.get_first_after(p)
                     if later:
@@ -203,6 +223,18 @@ def st_case(draw):
         picks.append(("member", max(ri)))
     for _, inst in picks:
         probes.append(G.respell(draw, cm, inst))
+    if draw(st.integers(0, 2)) == 0:
+        # a member written with a decimal hour / minute (dyadic fractions, in
+        # an offset a multiple of 15 minutes from the series' own, so that no
+        # float rounding is involved)
+        akw = spec.get("start") or spec.get("end")
+        tot = akw["time_zone_hour"] * 60 + akw["time_zone_minute"] + \
+            15 * draw(st.sampled_from([0, 0, 4, -2, 1, -22, 96]))
+        tot = max(-5999, min(5999, tot))
+        tzh = abs(tot) // 60 * (1 if tot >= 0 else -1)
+        tz = (tzh, tot - tzh * 60)
+        probes.append(G.respell(draw, cm, draw(st.sampled_from(ri)), tz=tz,
+                                decimal=True, allow24=False))
     if draw(st.sampled_from([False, True])):
         # a probe a fraction of a second after a member is not a member
         # (get_is_valid only; get_first_after is stated for whole seconds)
